@@ -77,6 +77,23 @@ Proof.
     subst; rewrite N.eqb_refl in E; discriminate.
 Qed.
 
+Lemma split_lines_no_nl_tail : forall r, no_nl r -> split_lines (r ++ [NL]) = ([r ++ [NL]], []).
+Proof.
+  induction r as [|c r IH]; intros Hn; [reflexivity|].
+  rewrite <- app_comm_cons, split_lines_cons, IH.
+  - destruct (c =? NL)%N eqn:E; [|reflexivity].
+    apply N.eqb_eq in E; subst. exfalso; apply Hn; left; auto.
+  - intros H; apply Hn; right; auto.
+Qed.
+
+Lemma split_lines_ends_nl : forall a, snd (split_lines (a ++ [NL])) = [].
+Proof.
+  intros a. rewrite split_lines_app.
+  pose proof (split_lines_rest_no_nl a) as Hn.
+  destruct (split_lines a) as [la ra]; simpl in Hn.
+  rewrite (split_lines_no_nl_tail ra Hn). reflexivity.
+Qed.
+
 Section Writer.
   Variable sc : bytes -> bytes.      (* any scrubber applied to one complete line *)
 
@@ -116,6 +133,17 @@ Section Writer.
     - apply Forall_forall; intros l Hl; eapply split_lines_lines; eauto.
     - apply split_lines_concat.
     - apply split_lines_rest_no_nl.
+  Qed.
+  (* scrubbing a stream line by line *)
+  Definition scrub_stream (s : bytes) : bytes := concat (map sc (fst (split_lines s))).
+
+  Theorem scrub_stream_line_local : forall a b,
+    scrub_stream ((a ++ [NL]) ++ b) = scrub_stream (a ++ [NL]) ++ scrub_stream b.
+  Proof.
+    intros a b. unfold scrub_stream. rewrite (split_lines_app (a ++ [NL]) b).
+    pose proof (split_lines_ends_nl a) as He.
+    destruct (split_lines (a ++ [NL])) as [la ra]; simpl in He; subst ra. simpl.
+    destruct (split_lines b) as [lb rb]; simpl. rewrite map_app, concat_app; reflexivity.
   Qed.
 End Writer.
 
@@ -310,4 +338,42 @@ Section Loop.
   Theorem scrub1_render : forall t,
     scrub1 full t = render t 0 (spans (S (length t)) full t 0).
   Proof. intros t; unfold scrub1; apply scrub_loop_render. Qed.
+  (* ---- the final newline of a line survives *)
+  Hypothesis HnlA : sym_free NL A = true.
+
+  Lemma tail_in : forall (x : N) (X w body : bytes), X ++ w = body ++ [x] -> w <> [] -> In x w.
+  Proof.
+    intros x X w body H Hne. destruct (exists_last Hne) as (w' & y & Ew). subst w.
+    rewrite app_assoc in H. apply app_inj_tail in H. destruct H as [_ Hy]. subst.
+    apply in_or_app; right; left; auto.
+  Qed.
+
+  Lemma scrub_loop_keeps_nl : forall fuel body,
+    exists body', scrub_loop fuel full (body ++ [NL]) = body' ++ [NL].
+  Proof.
+    induction fuel as [|f IH]; intros body; simpl; [eauto|].
+    destruct (search full (body ++ [NL]) 0) as [[[st en] cs]|] eqn:Es; [|eauto].
+    destruct (cap_lookup 1 cs) as [[gs ge]|] eqn:Ec; [|eauto].
+    destruct ge as [|ge']; [eauto|].
+    apply search_sound in Es. destruct Es as (k & Hk & Hst & Hm). simpl in Hst; subst st.
+    destruct (match_here_shape _ _ _ _ Hm) as (gs' & ge2 & w & Hcap & Hg1 & Hg2 & Hge & Hne & Hmw & pre & post & Es & Hpre).
+    rewrite Hcap in Ec. inversion Ec; subst gs' ge2.
+    assert (Hnl : ~ In NL w) by (eapply matches_sym_free; eauto).
+    assert (Hs : body ++ [NL] = (firstn k (body ++ [NL]) ++ pre) ++ w ++ post).
+    { rewrite <- app_assoc, <- Es. symmetry; apply firstn_skipn. }
+    assert (Hlen : length (firstn k (body ++ [NL]) ++ pre) = gs).
+    { rewrite app_length, firstn_length_le; auto. }
+    assert (Hle : S ge' <= length body).
+    { destruct (Nat.le_gt_cases (S ge') (length body)) as [|Hgt]; auto. exfalso.
+      assert (Hpost : post = []).
+      { apply (f_equal (@length N)) in Hs. rewrite !app_length in Hs. simpl in Hs.
+        rewrite app_length in Hlen. destruct post; auto. simpl in Hs. lia. }
+      subst post. rewrite app_nil_r in Hs. apply Hnl. eapply tail_in; eauto. }
+    rewrite skipn_app. replace (S ge' - length body) with 0 by lia. change (skipn 0 [NL]) with [NL].
+    destruct (IH (skipn (S ge') body)) as [b' Hb']. rewrite Hb'.
+    exists (firstn gs (body ++ [NL]) ++ scrubbed ++ b'). rewrite <- !app_assoc. reflexivity.
+  Qed.
+
+  Theorem scrub1_keeps_nl : forall body, exists body', scrub1 full (body ++ [NL]) = body' ++ [NL].
+  Proof. intros body; unfold scrub1; apply scrub_loop_keeps_nl. Qed.
 End Loop.
